@@ -45,7 +45,11 @@ func chain3(c *hlib.Ctx) {
 	nops := 1 + c.Rng.Intn(6)
 	for i := 0; i < nops; i++ {
 		m := st.ids.meshFromSoup(st.soup)
-		r := runOp3(c, st, m)
+		forced := -1
+		if i == 0 && (g.label == "tetra" || g.label == "octa") && c.Rng.Intn(2) == 0 {
+			forced = []int{8, 10, 6}[c.Rng.Intn(3)] // exact Loop / Blur / SubdivideEdges on the regular solids
+		}
+		r := runOp3(c, st, m, forced)
 		if r.skipped {
 			continue
 		}
